@@ -181,9 +181,19 @@ def register(reg, prop):
         f"{BACKEND}:MPSBackend._run": run_model,
         f"{IMPL}:MPSBackendImpl.permute_results": "inline",
     })
-    reported = (["len(result.atom_order) == N", "forall(lambda a: result.atom_order[a] == ids[a], 0, N)"]
-                + element_clauses("result._results", "SITE", "perm")
-                + [corr_clause("result._results", "SITE", "perm", out_first=True)])
+    # one clause for the atom order and one for the per-atom containers (one defect -> few failed
+    # obligations): register position perm[i] shows what site i held
+    new, old = "result._results", "SITE"
+    reported = [
+        "len(result.atom_order) == N",
+        "forall(lambda a: result.atom_order[a] == ids[a], 0, N)",
+        "forall(lambda t: forall(lambda i: forall(lambda j: "
+        f"len(bitkey({new}['bitstrings'][t])) == N"
+        f" and bitcount({new}['bitstrings'][t]) == bitcount({old}['bitstrings'][t])"
+        f" and bitkey({new}['bitstrings'][t])[perm[i]] == bitkey({old}['bitstrings'][t])[i]"
+        f" and {new}['occupation'][t][perm[i]] == {old}['occupation'][t][i]"
+        f" and {new}['correlation_matrix'][t][perm[i], perm[j]] == {old}['correlation_matrix'][t][i, j]"
+        ", 0, N), 0, N), 0, TIMES)"]
 
     # fixed size 4 (decisive counter-models): the atom order, position by position
     reported4 = ["len(result.atom_order) == 4 and "
